@@ -25,12 +25,18 @@ _FLAGS_WITH_ARG = (
     "-newline",
     "-nonce",
     "-nullvalue",
-    "-pagecache",
     "-separator",
     "-vfs",
     "-escape",
     "-A",
+    "-heap",
+    "-mmap",
+    "-sorterref",
+    "-threadsafe",
 )
+
+# Option flags that take two arguments: SIZE N
+_FLAGS_WITH_TWO_ARGS = ("-lookaside", "-pagecache")
 
 
 def _option_words(tokens: list[str]) -> list[str]:
@@ -43,7 +49,7 @@ def _option_words(tokens: list[str]) -> list[str]:
             options.append(token)
         if token in _FLAGS_WITH_ARG:
             i += 2
-        elif token == "-lookaside":
+        elif token in _FLAGS_WITH_TWO_ARGS:
             i += 3
         else:
             i += 1
@@ -114,8 +120,8 @@ def classify(ctx: HandlerContext) -> Classification:
                 sql_parts.append(tokens[i + 1])
             i += 2
             continue
-        # -lookaside takes TWO arguments: SIZE N
-        if token == "-lookaside":
+        # -lookaside and -pagecache take TWO arguments: SIZE N
+        if token in _FLAGS_WITH_TWO_ARGS:
             i += 3
             continue
         # This should be either filename or SQL
